@@ -63,7 +63,7 @@ class Layout:
     def __init__(self, seed=None, p_break=0.0, p_ws=0.0, p_comment=0.0, p_semi=0.0,
                  p_blank=0.0, p_hex=0.0, p_under=0.0, p_paren=0.0, break_after=None,
                  crlf=False, compact=False, lead=None, comment_texts=None,
-                 multiline_strings=False, indent=True, p_trail=0.0, p_semis=0.0):
+                 multiline_strings=False, indent=True, p_trail=0.0, p_semis=0.0, p_zero=0.0):
         self.rng = random.Random(seed)
         self.p_break = p_break
         self.p_ws = p_ws
@@ -80,6 +80,7 @@ class Layout:
         self.comment_texts = comment_texts or COMMENT_TEXTS
         self.multiline_strings = multiline_strings
         self.indent = indent
+        self.p_zero = p_zero        # leading zeros on integer literals (`007` is 7)
         self.p_semis = p_semis      # extra `;` after a statement terminator (empty statements are swallowed by the lexer)
         self.p_trail = p_trail      # trailing comma after the last item of a list / argument list / parameter list / object literal (where the grammar allows one)
 
@@ -93,7 +94,7 @@ class Layout:
                       p_hex=r.choice([0, 0.3]) * k, p_under=r.choice([0, 0.5]) * k,
                       p_paren=r.choice([0, 0, 0.15]) * k, crlf=r.random() < 0.15 * k,
                       compact=r.random() < 0.3, multiline_strings=r.random() < 0.3 * k,
-                      p_trail=r.choice([0, 0, 0.5]) * k, p_semis=r.choice([0, 0, 0.3]) * k)
+                      p_trail=r.choice([0, 0, 0.5]) * k, p_semis=r.choice([0, 0, 0.3]) * k, p_zero=r.choice([0, 0, 0.3]) * k)
 
 
 COMMENT_TEXTS = ["", " plain", " é✓😀 \"quoted\" $x ${y}", "# ## }{)(", " x := 1; print(x)",
@@ -349,6 +350,8 @@ class _Emitter:
                 self.expr(e.b, 1)
             self.tok("]", gl=True)
         elif isinstance(e, A.Prop):
+            if e.name in A.KEYWORDS:
+                raise ValueError("keyword %r cannot be a property name after `.`" % e.name)
             self.expr(e.e, 5)
             self.tok("->" if e.type_prop else ".", gl=True, gr=True)
             self.tok(e.name, "Ident", e.name)
@@ -375,6 +378,8 @@ class _Emitter:
     def int_text(self, n):
         s = str(n)
         lay = self.lay
+        if not self.inline and getattr(lay, "p_zero", 0) and lay.rng.random() < lay.p_zero:
+            s = "0" * lay.rng.choice([1, 2, 5]) + s
         if self.inline or not lay.p_under or lay.rng.random() >= lay.p_under:
             return s
         out = s[0]
